@@ -5,6 +5,11 @@
    [3 frames]               Framer.WriteFrame* (real zlib) then Framer.ReadFrame* ; obs list of results
    [4 VB wire chunks]       Framer.ReadFrame* on an arbitrary wire; chunks = inflate oracle [[idx off size VB plain]..]
                             obs list of [result offset-after]
+   [5 sid flags len fill]   compact DATA round trip: WriteFrame(DataFrame{sid, flags, len x fill}) then PING(7), read back;
+                            obs [[werr VB header8] [[result offset] ..]], DATA results as [0 sid flags len first last]
+   [6 kind flags sid vlen]  SYN_REPLY(2)/HEADERS(8) with one header of vlen incompressible bytes; obs [VB first12 framelen]
+   [7 flags n]              SETTINGS with n entries (0,4,100) then PING(7); obs [VB first12 framelen [[result offset] ..]]
+                            (read back only when n <= 1100; SETTINGS results as [4 ver flags len count])
    hdrs = [[VB name [VB value ..]] ..]     parse-result = [code hlen headers consumed maxrequest]            *)
 From Coq Require Import List ZArith Bool.
 From Bfe Require Import lib.Val lib.Bytes model.SpdyFrame.
@@ -66,6 +71,39 @@ Definition run_frames (fs : list frame) : val :=
   let '(w, cs) := write_stream fs 0 0 in
   VL (map strip_off (read_stream 64 (init_state w cs))).
 
+
+(* ---- compact ops: lengths at the field boundaries without 16 MB values ---- *)
+Definition ping7 : bytes := fst (write_frame (FPing 7)).
+Definition at_off (w : bytes) (o : Z) : fstate := set_wire (init_state w []) w o.
+Definition run_data_compact (sid flags len fill : Z) : val :=
+  match data_header sid flags len with
+  | inl code => VL [VL [VZ code; VB []]; VL (read_stream 8 (at_off ping7 0))]
+  | inr h =>
+    let first := dec32 (firstn 4 h) in
+    let second := dec32 (skipn 4 h) in
+    let fb := if 0 <? len then fill else -1 in
+    (* the payload is len copies of fill: the reader's DATA frame covers exactly the payload iff the
+       length field says len *)
+    if (first <? 2^31) && (second mod 2^24 =? len) then
+      let r := if first =? 0 then v_serr 17 0 else VL [VZ 0; VZ first; VZ (second / 2^24); VZ len; VZ fb; VZ fb] in
+      VL [VL [VZ 0; VB h]; VL (VL [r; VZ (8 + len)] :: read_stream 8 (at_off ping7 (8 + len)))]
+    else VL [VL [VZ 0; VB h]; VL [VL [v_desync; VZ 0]]]
+  end.
+Definition compact_settings (v : val) : val :=
+  match v with
+  | VL [VL [VZ 4; ver; fl; ln; VL l]; o] => VL [VL [VZ 4; ver; fl; ln; VZ (Z.of_nat (length l))]; o]
+  | _ => v
+  end.
+Definition settings_head (flags n : Z) : bytes := cf_header 4 flags (u32 (n * 8 + 4)) ++ be32 (u32 n).
+Definition run_settings_compact (flags n : Z) : val :=
+  let rb := if n <=? 1100 then
+              let w := fst (write_frame (FSettings flags (repeat (0, 4, 100) (Z.to_nat n)))) ++ ping7 in
+              map compact_settings (read_stream 8 (at_off w 0))
+            else [] in
+  VL [VB (settings_head flags n); VZ (12 + 8 * n); VL rb].
+(* header-bearing frame whose compressed block has c bytes (c is only known from the implementation) *)
+Definition hdr_head (kind flags sid c : Z) : bytes := cf_header kind flags (u32 (c + 4)) ++ be32 sid.
+
 Definition run_C39 (i : val) : val :=
   match i with
   | VL [VZ 1; hv] =>
@@ -84,6 +122,9 @@ Definition run_C39 (i : val) : val :=
     | Some cs => VL (read_stream 64 (init_state w cs))
     | None => VErr 0
     end
+  | VL [VZ 5; VZ sid; VZ fl; VZ len; VZ fill] => run_data_compact sid fl len fill
+  | VL [VZ 6; VZ _; VZ _; VZ _; VZ _] => v_desync        (* depends on the real compressed size: see agree *)
+  | VL [VZ 7; VZ fl; VZ n] => run_settings_compact fl n
   | _ => VErr 0
   end.
 
@@ -138,6 +179,13 @@ Definition agree_C39 (i o : val) : bool :=
     | VL ml, VL ol => list_agree true ml ol
     | _, _ => false
     end
+  | VL [VZ 5; _; _; _; _] => val_eqb (run_C39 i) o
+  | VL [VZ 6; VZ kind; VZ fl; VZ sid; VZ _] =>
+    match o with
+    | VL [VB h; VZ w] => bytes_eqb h (hdr_head kind fl sid (w - 12))
+    | _ => false
+    end
+  | VL [VZ 7; _; _] => val_eqb (run_C39 i) o
   | _ => false
   end.
 
@@ -261,6 +309,44 @@ Definition prop_C39 (i o : val) : bool :=
     | None => match o with VL _ => true | _ => false end      (* a frame outside the codec's domain *)
     end
   | VL [VZ 4; VB w; _] => match o with VL ol => bounds_ok w 0 ol | _ => false end
+  | VL [VZ 5; VZ sid; VZ fl; VZ len; VZ fill] =>
+    let ping := VL [VZ 6; VZ 3; VZ 0; VZ 4; VZ 7] in
+    if in31 sid && byte_ok fl && (0 <=? len) && (len <=? 2^24 - 1) then
+      (* accepted: header = stream id, flags, length (no wrap); read back as written; boundary kept *)
+      let fb := if 0 <? len then fill else -1 in
+      match o with
+      | VL [VL [VZ 0; VB h]; VL es] =>
+        (dec32 (firstn 4 h) =? sid) && (dec32 (skipn 4 h) / 2^24 =? fl) && (dec32 (skipn 4 h) mod 2^24 =? len) &&
+        val_eqb (VL es) (VL [VL [VL [VZ 0; VZ sid; VZ fl; VZ len; VZ fb; VZ fb]; VZ (8 + len)];
+                             VL [ping; VZ (8 + len + 12)]; VL [v_io 1; VZ (8 + len + 12)]])
+      | _ => false
+      end
+    else
+      (* the writer must refuse and write nothing *)
+      match o with
+      | VL [VL [VZ c; VB []]; VL es] => negb (c =? 0) && val_eqb (VL es) (VL [VL [ping; VZ 12]; VL [v_io 1; VZ 12]])
+      | _ => false
+      end
+  | VL [VZ 6; VZ kind; VZ fl; VZ sid; VZ _] =>
+    (* the length field is the payload length and the flags are the caller's *)
+    match o with
+    | VL [VB h; VZ w] =>
+      let second := dec32 (firstn 4 (skipn 4 h)) in (second / 2^24 =? fl) && (second mod 2^24 =? w - 8)
+    | _ => false
+    end
+  | VL [VZ 7; VZ fl; VZ n] =>
+    match o with
+    | VL [VB h; VZ w; VL es] =>
+      let second := dec32 (firstn 4 (skipn 4 h)) in
+      (second / 2^24 =? fl) && (second mod 2^24 =? w - 8) && (w =? 12 + 8 * n) &&
+      (if n <=? 1100 then
+         match es with
+         | VL [VL [VZ 4; VZ 3; VZ f'; VZ l'; VZ cnt]; VZ o1] :: _ => (f' =? fl) && (cnt =? n) && (o1 =? w)
+         | _ => false
+         end
+       else true)
+    | _ => false
+    end
   | _ => false
   end.
 
@@ -297,6 +383,10 @@ Definition kf_C39 (i : val) : Z :=
     | PIo _ _ mx | PDone _ _ _ _ mx => if zmax 4 (blen b) <? mx then 2 else 0
     | _ => 0
     end
+  (* 4: writers without a length check: header block of 2^24 - 4 bytes or more, SETTINGS with more than
+        1024 entries (unreadable) or 2^21 and more (length wraps into the flags byte) *)
+  | VL [VZ 6; _; _; _; VZ vlen] => if 2^24 - 200 <=? vlen then 4 else 0
+  | VL [VZ 7; _; VZ n] => if 1024 <? n then 4 else 0
   | VL [VZ 4; VB w; _] =>
     match run_C39 i with
     | VL ml =>
